@@ -37,6 +37,18 @@ def run(ctx):
     lc.canary(ctx, trace, lambda e: dict(e, got="deadbeef") if e["ev"] == "Walked" and e["got"] != "" else None)
     lc.canary(ctx, trace, lambda e: dict(e, bufLen=2) if e["ev"] == "CheckBegin" else None)
 
+    # the adversarial packages as the front-ends visit them: every file of a package in order by one long-lived set
+    # (same-named local types, import-less files after files with imports, ...), forwards and in shuffled orders
+    args_adv = ["-corpus", "dir:" + gdir, "-mode", "cli,order", "-oblig", "c03", "-others", "6"]
+    res_adv, trace_adv = lc.run_harness(ctx, "c03_adv", args_adv)
+    e2, s2 = lc.judge(ctx, res_adv, trace_adv)
+    events += e2
+    states += s2
+    for n in res_adv["nonconf"]:
+        if n["kind"] in C03_KINDS:
+            ctx.fail("%s %s" % (n["kind"], n["checker"]),
+                     "%s: checker %s on %s after %s: %s" % (n["kind"], n["checker"], n["file"], n.get("prev"), " | ".join(n["detail"][:12])),
+                     {"cmd": "vh lifecycle " + " ".join(args_adv), "nonconf": n})
     for n in res["nonconf"]:
         if n["kind"] in C03_KINDS:
             ctx.fail("%s %s" % (n["kind"], n["checker"]),
@@ -50,7 +62,7 @@ def run(ctx):
         "states": st, "transitions": tr,
         "traces_validated_against_impl": len(hists) + 1,
         "events_validated": events,
-        "checks_compared_with_fresh_instance": res["checks"],
+        "checks_compared_with_fresh_instance": res["checks"] + res_adv["checks"],
         "checks_with_warnings": res["nontrivial_checks"],
         "histories_from_tlc": len(hists),
         "checkers": res["checkers"], "files": res["units"],
